@@ -274,7 +274,7 @@ class Gen:
         """Sort keys that are total on the rows: some keys + the unique key as tie-breaker."""
         r = self.r
         keys = []
-        cands = [c for c in st.vis + st.hidden if c.ty in (INT, STR, BOOL, FLT) and c.kind != "x"]
+        cands = [c for c in st.vis + st.hidden if c.ty in (INT, STR, BOOL, FLT) and c.kind != "k"]   # F19: no constants
         for _ in range(r.randint(0, extra)):
             if cands:
                 keys.append(self.order(st, r.choice(cands)))
